@@ -25,7 +25,8 @@ PROPERTY = "C02"
 LEAN_MODULE = "DPL.Properties.C02"
 TRUSTED = [
     "modelled, not verified: CPython/numpy float arithmetic = IEEE binary64 = Lean `Float` (+,-,*,/,sqrt,pow bit-exact; "
-    "exp/log to 1 ulp); `math.erf` = the model's numerical `erfFloat` to 1 ulp (absolute 1.2e-16, measured on every run)",
+    "exp/log to 1 ulp); `math.erfc` / `math.erf` = the model's numerical `erfcFloat` / `erfFloat` (relative 1e-13 resp. "
+    "absolute 1.2e-16, measured on every run)",
     "the noise LAW is the ideal real-valued law with the calibrated parameter (Laplace / uniform / staircase / normal / "
     "discrete normal densities); that the samplers realise these laws from their uniforms is C03's business, the "
     "granularity of double-precision uniforms is not modelled",
@@ -44,8 +45,7 @@ UNPROVED = [
     "discrete-Gaussian sums and the rtol=1e-6 stopping rule: validated numerically only",
     "bounded-noise and bounded-domain Laplace: the end-to-end (eps,delta) statement is `_partial` (tail-mass / "
     "normaliser-ratio facts are hypotheses); the divergence is checked numerically on every run",
-    "floating-point rounding of the calibrations (theorems over the reals); cancellation in 1+erf(-x) inside the "
-    "analytic Gaussian objective for large eps",
+    "floating-point rounding of the calibrations (theorems over the reals)",
 ]
 RULE = ("parameter points (mechanism, eps in [1e-3,50] within the mechanism's admissible range, delta in [0,1) as "
         "admitted incl. 0/tiny/>=0.5, sensitivity in [0,1e6] incl. 0, domains of width 1e-3..inf at various offsets, "
